@@ -176,6 +176,41 @@ def r1(chk, repo, d):
                                          enclosing_function(st).name
                                          == "__init__"):
                             offs.append(st)
+        # ... or handed in: a parameter of that name given anything but
+        # True (or the caller's own setting of the same name)
+        def passes_on(v):
+            return (isinstance(v, ast.Constant) and v.value is True) or (
+                isinstance(v, ast.Name) and v.id == attr) or (
+                isinstance(v, ast.Attribute) and v.attr == attr)
+        takers = {}
+        for m_ in repo.production_modules():
+            for fn_ in ast.walk(m_.tree):
+                if isinstance(fn_, FUNC):
+                    ps = [a_.arg for a_ in fn_.args.args]
+                    if attr in ps:
+                        takers.setdefault(fn_.name, set()).add(
+                            ps.index(attr))
+                        for a_, dflt in zip(reversed(fn_.args.args),
+                                            reversed(fn_.args.defaults)):
+                            if a_.arg == attr and not passes_on(dflt):
+                                offs.append(dflt)
+        for m_ in repo.production_modules():
+            for c_ in ast.walk(m_.tree):
+                if not isinstance(c_, ast.Call):
+                    continue
+                for k_ in c_.keywords:
+                    if k_.arg == attr and not passes_on(k_.value):
+                        offs.append(c_)
+                nm_ = (dotted(c_.func) or "").split(".")[-1]
+                cls_ = repo.resolve_class_name(c_._module, nm_) if hasattr(
+                    repo, "resolve_class_name") else None
+                for idx in takers.get(nm_, ()):
+                    # (methods: the receiver is not among the arguments)
+                    for i_ in (idx, idx - 1):
+                        if 0 <= i_ < len(c_.args) and isinstance(
+                                c_.args[i_], ast.Constant) and c_.args[
+                                    i_].value is False:
+                            offs.append(c_)
         chk.ob("R06.1", E + "Memory.__iadd__", f"the atomic lowering does "
                f"not depend on the switchable attribute `{attr}`", not offs,
                offs[0] if offs else node,
